@@ -47,6 +47,11 @@ def _layouts(tier):
     L.append(("envPF+own", cm.world(S2, [{"kind": "env", "env": "e0", "order": "PF", "level": "V"},
                                          {"kind": "own", "sub": "f1", "level": "V"}], comp)))
     L.append(("ps[f0,f1]-M", cm.world(S2, [{"kind": "ps", "ce": 0, "members": ["f0", "f1"], "level": "M"}], comp)))
+    # both modes populated up to level 2 (total photon number 4)
+    S3 = cm.subs(2, 0, [3, 3])
+    L.append(("own-LL22", cm.world(S3, [{"kind": "own", "sub": "f0", "level": "L", "label": 2},
+                                        {"kind": "own", "sub": "f1", "level": "L", "label": 2}], comp)))
+    L.append(("own33-VV", cm.world(S3, [{"kind": "own", "sub": "f0", "level": "V"}, {"kind": "own", "sub": "f1", "level": "V"}], comp)))
     return L
 
 
